@@ -34,6 +34,7 @@ def emit_readable(ctx, repo):
     ctx.call(RE.r_tagchar_inclusion, repo)
     ctx.call(RE.r_tag_suffix_nonempty, repo)
     ctx.call(RE.r_directive_after_open_ended, repo)
+    ctx.call(R10.r_root_plain_open_ended, repo)
     ctx.call(RE.r_breakset_agreement, repo, ['emitter'], exceptions=DQ_EXC)
     ctx.call(RE.r_bytes_iter, repo)
     ctx.call(RX.r_block_hint_leading, repo)
